@@ -106,6 +106,51 @@ def limit_impl(namespace, names=None, seconds=10):
             namespace[n] = g
 
 
+
+def load_factor():
+    """How much longer than on an idle machine things may take right now: run-queue length per core (1, 5 minute
+    load averages), between 1 and 12.  Wall-clock limits of the harness are allowances for an idle machine and are
+    stretched by this factor, so that a machine shared with other heavy jobs does not turn into a false alarm."""
+    try:
+        l = max(os.getloadavg()[:2])
+    except OSError:
+        return 1.0
+    return min(12.0, max(1.0, l / float(NPROC)))
+
+
+def patient_communicate(p, data, timeout):
+    """p.communicate(data) with `timeout` seconds on an idle machine; on a loaded one the allowance is re-computed
+    (timeout * load_factor()) every two minutes until it is used up.  Raises subprocess.TimeoutExpired then."""
+    t0 = time.time()
+    try:
+        return p.communicate(data, timeout=timeout)
+    except subprocess.TimeoutExpired:
+        pass
+    while True:
+        left = timeout * load_factor() - (time.time() - t0)
+        if left <= 0:
+            raise subprocess.TimeoutExpired(p.args, timeout)
+        try:
+            return p.communicate(timeout=min(left, 120))
+        except subprocess.TimeoutExpired:
+            continue
+
+
+def patient_run(cmd, timeout, **kw):
+    """subprocess.run(cmd, timeout=...) with the same load-stretched allowance"""
+    data = kw.pop('input', None)
+    if data is not None:
+        kw['stdin'] = subprocess.PIPE
+    p = subprocess.Popen(cmd, **kw)
+    try:
+        o, e = patient_communicate(p, data, timeout)
+    except subprocess.TimeoutExpired:
+        p.kill()
+        p.communicate()
+        raise
+    return subprocess.CompletedProcess(p.args, p.returncode, o, e)
+
+
 def sh(cmd, timeout=None, cwd=None, env=None, input=None):
     p = subprocess.run(cmd, shell=isinstance(cmd, str), cwd=cwd, env=env, input=input,
                        stdout=subprocess.PIPE, stderr=subprocess.STDOUT, timeout=timeout, text=True)
@@ -283,7 +328,7 @@ class Model:
         def work(i):
             p, data, n = ps[i]
             try:
-                o, e = p.communicate(data, timeout=timeout)
+                o, e = patient_communicate(p, data, timeout)
             except subprocess.TimeoutExpired:
                 p.kill()
                 o, e = '', 'timeout'
